@@ -5,9 +5,37 @@
 //    line/column (1-based) or, for reader-level errors that carry no mark, the byte offset;
 //  * K18: the input reader's own error text survives; a syntax error is not reported as an I/O problem.
 // Run: copy to <xt checkout>/tests/yaml_parser_native.rs && cargo test --offline --test yaml_parser_native
+use std::alloc::{GlobalAlloc, Layout, System};
 use std::io::{self, Read};
 use std::panic::{catch_unwind, AssertUnwindSafe};
+use std::sync::atomic::{AtomicBool, AtomicIsize, Ordering};
 use xt::Format;
+
+// live heap bytes, for the K19 (init/delete pairing) replays
+struct Counting;
+static LIVE: AtomicIsize = AtomicIsize::new(0);
+unsafe impl GlobalAlloc for Counting {
+	unsafe fn alloc(&self, l: Layout) -> *mut u8 {
+		let p = unsafe { System.alloc(l) };
+		if !p.is_null() {
+			LIVE.fetch_add(l.size() as isize, Ordering::Relaxed);
+		}
+		p
+	}
+	unsafe fn dealloc(&self, p: *mut u8, l: Layout) {
+		LIVE.fetch_sub(l.size() as isize, Ordering::Relaxed);
+		unsafe { System.dealloc(p, l) }
+	}
+	unsafe fn realloc(&self, p: *mut u8, l: Layout, new: usize) -> *mut u8 {
+		let q = unsafe { System.realloc(p, l, new) };
+		if !q.is_null() {
+			LIVE.fetch_add(new as isize - l.size() as isize, Ordering::Relaxed);
+		}
+		q
+	}
+}
+#[global_allocator]
+static ALLOC: Counting = Counting;
 
 struct Tiny<'a> {
 	data: &'a [u8],
@@ -183,5 +211,80 @@ fn reader_faults_keep_their_text_and_syntax_errors_are_not_io_errors() {
 			}
 		}
 	}
+	assert!(bad.is_empty(), "{} violations, first: {}", bad.len(), bad[0]);
+}
+
+#[test]
+fn nothing_is_leaked_whatever_the_stream_holds() {
+	// every libyaml event that owns memory (directives, anchors, tags, scalars) is deleted exactly once and the parser
+	// with its read state is released, on success, on syntax errors, on reader faults and when detection abandons the
+	// chunker after one document. (run with --test-threads 1: the counter is global)
+	let streams: [&[u8]; 8] = [
+		b"%YAML 1.2\n%TAG !e! tag:example.com,2000:\n---\n!e!foo bar\n...\n%YAML 1.2\n---\n- &a x\n- *a\n",
+		b"a: &anchor [1, 2]\nb: *anchor\nc: !!str tagged\n---\n? complex key\n: value\n",
+		b"- |\n  literal text\n- >\n  folded text\n- 'single' \n- \"double\"\n",
+		b"k: [1, 2\n",
+		b"%TAG !e! tag:example.com,2000:\n---\n!e!x [1, {a: b}, \"unterminated\n",
+		b"a: 1\n---\nb: 2\n---\nc: [\n",
+		b"{\"json\": [1, 2, {\"k\": null}]}\n",
+		b"# nothing here\n",
+	];
+	let run = |n: usize| {
+		for _ in 0..n {
+			for s in streams {
+				for from in [Some(Format::Yaml), None] {
+					for fail_at in [None, Some(s.len() / 2), Some(3)] {
+						let r = Tiny { data: s, chunk: 5, fail_at, pos: 0 };
+						let _ = xt::translate_reader(r, from, Format::Json, io::sink());
+					}
+					let _ = xt::translate_slice(s, from, Format::Json, io::sink());
+				}
+			}
+		}
+	};
+	run(20);
+	let before = LIVE.load(Ordering::Relaxed);
+	run(200);
+	let after = LIVE.load(Ordering::Relaxed);
+	assert!(after - before < 4096, "1 violations, first: {} bytes of heap stay allocated after 200 rounds of translations (libyaml events, parser or read state not released)", after - before);
+}
+
+#[test]
+fn the_reader_is_released_when_a_translation_panics() {
+	// a reader that breaks the Read contract makes the translation panic; unwinding must still release the parser and
+	// the read state, including the caller's reader
+	static DROPPED: AtomicBool = AtomicBool::new(false);
+	struct Liar {
+		calls: usize,
+		lie_on: usize,
+	}
+	impl Read for Liar {
+		fn read(&mut self, b: &mut [u8]) -> io::Result<usize> {
+			self.calls += 1;
+			let text = b"key: value\n";
+			let n = text.len().min(b.len());
+			b[..n].copy_from_slice(&text[..n]);
+			if self.calls == self.lie_on {
+				Ok(b.len() + 7)
+			} else {
+				Ok(n)
+			}
+		}
+	}
+	impl Drop for Liar {
+		fn drop(&mut self) {
+			DROPPED.store(true, Ordering::SeqCst);
+		}
+	}
+	std::panic::set_hook(Box::new(|_| {}));
+	let mut bad = vec![];
+	for lie_on in 1..=4 {
+		DROPPED.store(false, Ordering::SeqCst);
+		let r = catch_unwind(AssertUnwindSafe(|| xt::translate_reader(Liar { calls: 0, lie_on }, Some(Format::Yaml), Format::Json, io::sink())));
+		if !DROPPED.load(Ordering::SeqCst) {
+			bad.push(format!("over-report on read {lie_on}: outcome {}, the reader was never dropped (parser and read state leaked)", if r.is_err() { "panic" } else { "returned" }));
+		}
+	}
+	let _ = std::panic::take_hook();
 	assert!(bad.is_empty(), "{} violations, first: {}", bad.len(), bad[0]);
 }
